@@ -132,7 +132,7 @@ Definition is_valid_qname_case (c : str * qname_sp * str * nsmap * option str) :
   match wf_qname sp && guard_ws a b, val_qname env sp with true, Some _ => true | _, _ => false end.
 (* clause 3 of the guard *)
 Definition qname_case_py_guard (c : str * qname_sp * str * nsmap * option str) : bool :=
-  let '(a, sp, b, env, obs) := c in qname_py_guard (q_local sp).
+  let '(a, sp, b, env, obs) := c in qname_sp_py_guard sp.
 (* serialize with a prefix map: the text is an xs:QName literal that, under the
    resulting bindings, denotes the value; (uri, local, map, observed text, observed map) *)
 Definition parse_qname_sp (s : str) : qname_sp :=
